@@ -154,3 +154,24 @@ M("C09", "shiftlon-negshift-no-wrap", [(CO, "            (w,) = np.where(lon > 3
   "negative shifts leave values up to 540")
 M("C09", "rotate-dec-arcsin-clamp-asym", [(CO, "    dec_out = arcsin(b)\n", "    dec_out = arcsin(b)\n    dec_out[sb < -0.99999] *= -1\n")],
   "points within 0.26 deg of the south pole are mirrored")
+
+# ---- C19
+RA = "esutil/random.py"
+M("C19", "randcap-atbound-dropped", [(CO, "        rand_dec = np.rad2deg(arctan2(z, sqrt(x * x + y * y)))\n\n        atbound(rand_ra, 0.0, 360.0)\n", "        rand_dec = np.rad2deg(arctan2(z, sqrt(x * x + y * y)))\n\n")],
+  "longitudes come back in [-180,180]")
+M("C19", "pole-switch-99", [(CO, "    if dec >= 89.9 or dec <= -89.9:", "    if dec >= 99 or dec <= -89.9:")],
+  "equivalent since the direct path became accurate at the poles", control=True)
+M("C19", "randcap-radius-not-sqrt-for-rot", [(CO, "            rad,\n            get_radius=True,\n            rng=rng,\n        )", "            rad * (1 + 1e-7),\n            get_radius=True,\n            rng=rng,\n        )")],
+  "rotated caps are 1e-7 (relative) too wide")
+M("C19", "generator-norm-by-sum", [(RA, "                self.norm = pcum[-1]\n                self.pcum = pcum / self.norm\n\n                # interval is smaller, no integral in first point\n                self.xvals = self.xinput[1:]\n\n    def initialize_func",
+                                   "                self.norm = pcum.sum()\n                self.pcum = pcum / self.norm\n\n                # interval is smaller, no integral in first point\n                self.xvals = self.xinput[1:]\n\n    def initialize_func")],
+  "tabulated density: cumulative normalised by its sum instead of its last value")
+M("C19", "cholesky-upper-factor", [(RA, "        self.M = numpy.linalg.cholesky(self.cov)\n", "        self.M = numpy.linalg.cholesky(self.cov).T\n")])
+M("C19", "cholesky-sample-mean-first-only", [(RA, "    if means is not None:\n        for i in range(npar):\n            V[i, :] += means[i]", "    if means is not None:\n        for i in range(npar):\n            V[i, :] += means[i] if n > 1 or i == 0 else 0.0")],
+  "n=1: only the first mean is added")
+M("C19", "random-indices-inclusive", [(RA, "    return rng.choice(imax, size=nrand, replace=replace)", "    return rng.choice(imax + (0 if replace is False else 1), size=nrand, replace=replace)")],
+  "with replacement the range becomes [0,imax]")
+M("C19", "randsphere-dec-range-swapped-cos", [(CO, "    cosdec_min = cos(deg2rad(90.0 + dec_range[1]))\n    cosdec_max = cos(deg2rad(90.0 + dec_range[0]))", "    cosdec_min = cos(deg2rad(90.0 + dec_range[1]))\n    cosdec_max = cos(deg2rad(90.0 + dec_range[0])) if dec_range[0] > -89.9999 else 1.0 + 1e-9")],
+  "boxes touching the south pole draw v slightly above 1 (clipped to the pole): harmless", control=True)
+M("C19", "generator-first-interval-dropped", [(RA, "                pcum = scipy.integrate.cumulative_trapezoid(self.pofx, self.xinput)\n", "                pcum = scipy.integrate.cumulative_trapezoid(self.pofx, self.xinput)\n                pcum = pcum - pcum[0] * (self.xinput.size > 50)\n")],
+  "grids with more than 50 points lose the first interval's probability")
